@@ -20,8 +20,8 @@ func TestC02(t *testing.T) {
 	Ev.Assume("the overlay bowl reads the old build through its own fspool (no seam): short reads on old files are injected in C14 and, for the fresh bowl, in C01/C07/C09")
 	Prop(t, "C02", func(rt *rapid.T) {
 		pair := GenPair(rt, GenOpts{Links: true, EmptyDirs: true, KindChange: true, DirFile: true, LowEntropy: true, MaxMid: 200 * KiB, Big: rapid.IntRange(0, 19).Draw(rt, "allowbig") == 0})
-		retry := rapid.IntRange(0, 3).Draw(rt, "retry") == 0
-		if retry && rapid.Bool().Draw(rt, "periodic") {
+		retry := rapid.IntRange(0, 2).Draw(rt, "retry") == 0
+		if retry && rapid.IntRange(0, 3).Draw(rt, "periodic") != 0 {
 			// a file laid out from two or three distinct blocks, some of them replaced by another of
 			// the same blocks in the new build: old and new agree at many shifted offsets
 			nb := rapid.IntRange(4, 10).Draw(rt, "periodicblocks")
